@@ -40,3 +40,13 @@ check("C19", "model_checking",
   "Virtual clock through the time hook; ticks are explicit; elapsed times within 2 ms of a limit are not judged; depth 6 / 8.",
   "explicit-state exploration of a reference model (elapsed, fired, open) with conformance of every edge against the implementation under a virtual clock",
   "DESIGN.md section 4 C19")
+check("C18", "model_checking",
+  "Matrix: all 7^5 = 16807 channels built from seven glob patterns per field are registered together on a real engine and receive the messages of real runs; each of the ~2.4*10^5 (channel, message) pairs is compared with a hand-written truth table per pattern (no glob engine in the oracle), so the five-fold conjunction with the tag disjunction is decided for the whole pattern product. Histories: every sequence up to the depth over open / re-register with another pattern / close / unsub / emit-completing / emit-failing for two channels that register all four handler kinds; per-channel deliveries are compared with the pattern registered at dispatch.",
+  "Dispatch right after generation; patterns and corpus fixed in checks/c18.rs; history depth 4 / 5.",
+  "bounded-exhaustive enumeration of the pattern product on the implementation plus explicit-state enumeration of channel operation histories with conformance of every step",
+  "DESIGN.md section 4 C18")
+check("C11", "model_checking",
+  "On every execution of nine workflows (sequential, branches, catches, parallel generators, parked branches, env declared in the model, env written by a script, a variable propagating to the root) x every sequence of <= 2 client actions x both keep_processes settings x both stores, at every quiescent point the live process (full dump through the hook) is compared with the proc row and the task rows read through the registered collections: tid set, per task state, prev, data, err, start/end time, per process state, err, env.",
+  "Atomic activities, deviation bound 0-1; the evaluated-parameter cache `$params` of a task is not judged (derived on demand).",
+  "stateless model checking of the implementation: replay DFS over client histories x activity orders with a store-image invariant at every quiescent state",
+  "DESIGN.md section 4 C11")
